@@ -15,7 +15,9 @@ CHECK = {
              "within a 25 s watchdog (wall clock and process CPU time, stack sampled twice inside internal/query before a hang "
              "is reported; heap guard 3 GiB); two parses agree in error text or in sorting, limit, grouping and "
              "Conditions.String() (durations modulo k*(ref1-ref2)). Non-trivial: accepted by the grammar and carrying >= 2 "
-             "filters, a variable, a list or a negation; distinct = distinct input strings."),
+             "filters, a variable, a list or a negation; distinct = distinct input strings. "
+             "Thorough tier only: FuzzVerifC14, go's native coverage-guided fuzzer over byte strings with the same oracle, seeded with 300 examples of the generator above "
+             "and the reproducers of repaired findings; its evidence counts executions (evaluations) and corpus entries with new coverage (non-trivial)."),
     "technique": "grammar-based and mutation-based generation (rapid) with an in-process watchdog, panic capture and a double-parse determinism check; in the thorough tier additionally go's native coverage-guided fuzzer on the same oracle, seeded with 300 examples of the structured generator",
     "level_text": ("generated query texts, from well-formed to raw bytes, run through query.Parse under a watchdog; finds panics, "
                    "simplification loops without progress, slow normal-form handling and run-to-run differences; no absence claim"),
